@@ -299,4 +299,13 @@ theorem cycle_check_exact_built (ops : List Build.Op) (hv : Build.Valid {} ops) 
   cycle_check_exact _ orc (Build.built_shaped (Build.build_builtOk ops {} Build.builtOk_empty hv))
     (Build.built_nodupKeys (Build.build_builtOk ops {} Build.builtOk_empty hv)) hU hdec
 
+/-- **scenarios without groups**: all connections then have cutoff 1, `Uniform` holds outright (`Build.flat_uniform`): whenever the
+check decides, it rejects exactly the scenarios with an all-zero cycle - for every sequence of valid calls without groups -/
+theorem cycle_check_exact_flat (ops : List Build.Op) (hv : Build.Valid {} ops) (hf : Build.flatOps ops = true) (orc : List Nat)
+    (hdec : ∀ e, ensureNoCycles (Build.build ops).sims orc ≠ .error e) :
+    (∃ p, ensureNoCycles (Build.build ops).sims orc = .cycle p) ↔
+      ∃ s p d, RealPath (Build.build ops).sims s s p d ∧ d.isZero = true :=
+  cycle_check_exact_built ops hv orc
+    (Build.flat_uniform (Build.build_builtOk ops {} Build.builtOk_empty hv) (Build.flatWorld_of_ops hv hf)) hdec
+
 end Mosaik.C06
